@@ -1,4 +1,5 @@
 import GeoVerif.Lemmas.C04
+import GeoVerif.Lemmas.Irr
 /-!
 # C04 — Cash flow, NPV, IRR, VIR, MOIC and payback are mutually consistent
 
@@ -68,5 +69,32 @@ theorem npv_mono (r : Rat) (hr : 0 < 1 + r) (cf cf' : List Rat) (hl : cf.length 
 example : paybackFixed (cumsum [-10, 4, 4, 4]) = 3 + 1/2 := by decide +kernel
 example : IsTurn (cumsum [-10, 4, 4, 4]) 3 := by
   refine ⟨by decide, by decide, ?_, ?_⟩ <;> decide +kernel
+
+
+/-! ## IRR: the rate that zeroes the NPV is unique for a conventional project cash flow -/
+
+/-- **the IRR is unique**: a conventional cash flow (outlays in the first `m ≥ 1` years, returns afterwards, at least one positive
+return) has at most one rate above −100 % at which its net present value is zero -/
+theorem irr_unique (cf : List Rat) (m : Nat) (hm : 1 ≤ m) (hc : ConvFrom m 0 cf) (hr : HasReturnFrom m 0 cf)
+    (r₁ r₂ : Rat) (h₁ : -1 < r₁) (h₂ : -1 < r₂) (z₁ : npvFrom r₁ 0 cf = 0) (z₂ : npvFrom r₂ 0 cf = 0) : r₁ = r₂ := by
+  by_contra hne
+  rw [npvFrom_eq_poly] at z₁ z₂
+  have p₁ : 0 < 1 + r₁ := by linarith
+  have p₂ : 0 < 1 + r₂ := by linarith
+  rcases lt_or_gt_of_ne hne with hlt | hgt
+  · -- r₁ < r₂: discount factor x₂ < x₁
+    have hx : (0 : Rat) < 1 / (1 + r₂) := by positivity
+    have hxy : 1 / (1 + r₂) < 1 / (1 + r₁) := one_div_lt_one_div_of_lt p₁ (by linarith)
+    have := cross_pos _ _ hx hxy m hm 0 cf hc hr
+    rw [z₁, z₂] at this; simp at this
+  · have hx : (0 : Rat) < 1 / (1 + r₁) := by positivity
+    have hxy : 1 / (1 + r₁) < 1 / (1 + r₂) := one_div_lt_one_div_of_lt p₂ (by linarith)
+    have := cross_pos _ _ hx hxy m hm 0 cf hc hr
+    rw [z₁, z₂] at this; simp at this
+
+/-- non-vacuity: −10, −5, 6, 6, 6 is conventional with m = 2 and has a positive return -/
+example : ConvFrom 2 0 [-10, -5, 6, 6, 6] ∧ HasReturnFrom 2 0 [-10, -5, 6, 6, 6] := by
+  simp [ConvFrom, HasReturnFrom]
+
 
 end GeoVerif.C04
